@@ -33,6 +33,14 @@ def modes(s, lmax):
 
 
 def ortho_case(task):
+    try:
+        return _ortho_case(task)
+    except Exception:      # noqa: BLE001
+        import traceback
+        return {'s': task[0], 'pairs': 1, 'bad': [((0, 0), (0, 0), 'raised: ' + traceback.format_exc()[-300:])], 'maxerr': float('inf')}
+
+
+def _ortho_case(task):
     from aurel import maths
     s, lmax = task
     T, P, W, dphi = H.gauss_legendre_sphere(lmax + 4, 2 * lmax + 4)
@@ -50,6 +58,14 @@ def ortho_case(task):
 
 
 def ref_case(task):
+    try:
+        return _ref_case(task)
+    except Exception:      # noqa: BLE001
+        import traceback
+        return {'task': list(task), 'ratio': [float('nan'), 0.0], 'err': float('inf')}
+
+
+def _ref_case(task):
     from aurel import maths
     s, l, m = task
     T, P, W, dphi = H.gauss_legendre_sphere(9, 14)
@@ -63,6 +79,14 @@ def ref_case(task):
 
 
 def synth_case(task):
+    try:
+        return _synth_case(task)
+    except Exception:      # noqa: BLE001
+        import traceback
+        return {'s': task[0], 'sets': 1, 'bad': [('raised', traceback.format_exc()[-300:])]}
+
+
+def _synth_case(task):
     from aurel import maths
     s, lmax = task
     T, P, W, dphi = H.gauss_legendre_sphere(lmax + 4, 2 * lmax + 4)
@@ -180,8 +204,14 @@ def psi4_case(task):
         rel.data['Weyl_Psi4r'] = np.real(psi).copy()
         rel.data['Weyl_Psi4i'] = np.imag(psi).copy()
         rel.freeze_data()
-        with quiet():
-            out = rel['Psi4_lm']
+        try:
+            with quiet():
+                out = rel['Psi4_lm']
+        except Exception as ex:      # noqa: BLE001
+            # all radii are inside the grid: extraction must not raise
+            return {'task': [l, m, list(centre), list(Ns)],
+                    'errs': [float('inf')] * len(Ns),
+                    'raised': f"N={N}: {ex!r}"[:200]}
         worst = 0.0
         for R in radii:
             c = out[R]
@@ -237,7 +267,8 @@ def main(tier):
             run.violation(f"C20:synthesis-analysis:s={r['s']}:{b[0]}",
                           str(b)[:300], {'s': r['s']})
     # (d) interpolation
-    total += interp_cases(run)
+    total += runner.guard(run, 'C20:interpolate:raised', interp_cases,
+                          run)
     # (e) Psi4_lm of an injected pure mode
     ptasks = []
     Ns = (24, 48)
@@ -257,7 +288,8 @@ def main(tier):
             run.violation(
                 f"C20:Psi4_lm:mode-not-recovered",
                 f"injected (l,m)=({t[0]},{t[1]}) centre={t[2]}: relative "
-                f"error {e_lo:.3e} at N=24, {e_hi:.3e} at N=48",
+                f"error {e_lo:.3e} at N=24, {e_hi:.3e} at N=48 "
+                f"{r.get('raised', '')}",
                 {'psi4': [t[0], t[1], list(t[2])]})
     run.note(f"Psi4_lm worst relative error at N=48: {worst:.3e}")
     run.sample({'orthonormality': 'all pairs (l,m),(l\',m\') with l<=8, '
